@@ -3,7 +3,7 @@
 //! Fault enumeration on base streams (reference-encoder streams + the repository's tracked .gds files):
 //!   T  every truncation point
 //!   F  every single-record fault at every record position
-//!   P  pairs of faults on the ten smallest bases (thorough)
+//!   P  pairs of faults on the 18 smallest bases (thorough)
 //!   S  every record sequence of bounded length after every parser context
 //!   HL / HT  header space: all 65 536 length values at 3 positions; all 256 x 256 (record type, data type) pairs
 //!   N  VERIF_SEED byte noise (thorough; labelled supplement, never the deciding step)
@@ -1230,7 +1230,7 @@ impl Driver for C10 {
                 REPO_FILES.len(),
                 t.pick("every (bases <= 64 records) / first 24, last 12 and every 37th (larger bases)", "every"),
                 fault_table().len(),
-                t.pick("[P] pairs of faults: thorough tier only.", "[P] on the ten smallest bases every pair of record positions x 22 x 22 faults of a reduced list."),
+                t.pick("[P] pairs of faults: thorough tier only.", "[P] on the 18 smallest bases every pair of record positions x 22 x 22 faults of a reduced list."),
                 contexts().len(),
                 alphabet(true).len(),
                 t.pick("", &format!(", and every sequence of 3 records over the minimal alphabet ({} records)", alphabet(false).len())),
@@ -1259,7 +1259,7 @@ impl Driver for C10 {
         if tier.is_thorough() {
             let mut small: Vec<&Base> = bases().iter().filter(|b| b.recs.len() >= 2).collect();
             small.sort_by_key(|b| (b.recs.len(), b.name.clone()));
-            for b in small.iter().take(10) {
+            for b in small.iter().take(18) {
                 for i in 0..b.recs.len() - 1 {
                     v.push(format!("P|{}|{}", b.name, i));
                 }
